@@ -146,7 +146,9 @@ func c09Run(c *fw.Ctx) {
 		case 0:
 			l, r := x.Choose("lifetime", 2), x.Choose("token-deadline", 2)
 			rt := []string{"idp-refresh-token", ""}[x.Choose("refresh-token", 2)]
-			em := []string{"bob@corp.test", "mallory@other.test", "bob@evilcorp.test", "notbob@corp.test"}[x.Choose("email", 4)]
+			// (the last: the listed address / domain with its 's' written as U+017F, which Unicode case folding —
+			// but not lower-casing — equates with 's')
+			em := []string{"bob@corp.test", "mallory@other.test", "bob@evilcorp.test", "notbob@corp.test", "bob@corp.te\u017ft"}[x.Choose("email", 5)]
 			pick := func(b int) time.Time {
 				if b == 0 {
 					return future
@@ -398,6 +400,28 @@ func c09Run(c *fw.Ctx) {
 	states := []st{{"nonce_A:in-domain", b64(nonceA + ":" + in), nonceA, in}, {"nonce_B:in-domain", b64(nonceB + ":" + in), nonceB, in}, {"nonce_A:out-of-domain", b64(nonceA + ":" + out), nonceA, out},
 		{"no-colon", b64(nonceA), "", ""}, {"not-base64", "%%%", "", ""}, {"absent", "", "", ""}, {"empty-nonce", b64(":" + in), "", in}}
 	csrfs := []string{nonceA, nonceB, "", "%00"}
+	// a flow the authenticator itself started: the CSRF cookie exactly as /start sets it and the state it
+	// sends to the identity provider (whatever their format, this pair belongs together, and this cookie with
+	// any state carrying another nonce does not)
+	realCookie, realState, realNonce := "", "", ""
+	{
+		setNow(0)
+		good := "https://app.sso.test/oauth2/callback"
+		r := e.Do(harness.NewRequest("GET", "/"+e.Slug+"/start?redirect_uri="+url.QueryEscape("https://"+harness.AuthHost+signedSignIn(e, good, harness.T0)), harness.AuthHost, nil, nil))
+		if ck := r.Cookie(e.CookieName + "_csrf"); ck != nil && r.Status == 302 {
+			if u, err := url.Parse(r.Location); err == nil {
+				realCookie, realState = ck.Value, u.Query().Get("state")
+				if raw, err := base64.URLEncoding.DecodeString(realState); err == nil {
+					realNonce = strings.SplitN(string(raw), ":", 2)[0]
+				}
+			}
+		}
+		if realCookie == "" || realNonce == "" {
+			panic(explore.HarnessError{Msg: fmt.Sprintf("C09: /start did not start a flow (status %d)", r.Status)})
+		}
+		states = append(states, st{"state-of-a-real-start", realState, realNonce, in})
+		csrfs = append(csrfs, realCookie)
+	}
 	drive(c, "callback", -1, func(x *explore.Exec, owned bool) {
 		setNow(0)
 		s := states[x.Choose("state", len(states))]
@@ -429,7 +453,7 @@ func c09Run(c *fw.Ctx) {
 				email = strings.Split(strings.Split(cl.Answer, `"email":"`)[1], `"`)[0]
 			}
 		}
-		d := map[string]interface{}{"state": s.n, "csrf_cookie": ck, "idp_calls": calls, "status": resp.Status, "location": resp.Location}
+		d := map[string]interface{}{"state": s.n, "csrf_cookie": map[bool]string{true: "(the cookie a real /start set)", false: ck}[ck == realCookie], "idp_calls": calls, "status": resp.Status, "location": resp.Location}
 		viol := func(key, what string) {
 			c.Res.Violate(fw.Violation{Property: "C09", Key: "C09/callback/" + key, What: what, Scenario: "callback", Choices: x.Choices(), Detail: d})
 		}
@@ -438,7 +462,7 @@ func c09Run(c *fw.Ctx) {
 		}
 		sc := resp.Cookie(e.CookieName)
 		set := sc != nil && sc.Value != ""
-		c.Res.Outcome(fmt.Sprintf("callback|%s|%s|%v|%d|%v", s.n, ck, calls, resp.Status, set))
+		c.Res.Outcome(fmt.Sprintf("callback|%s|%s|%v|%d|%v", s.n, map[bool]string{true: "real-start-cookie", false: ck}[ck == realCookie], calls, resp.Status, set))
 		if c.Res.Execs%30 == 3 {
 			c.Res.Sample(d)
 		}
@@ -450,6 +474,10 @@ func c09Run(c *fw.Ctx) {
 		}
 		c.Res.Count("positive_sessions_created", 1)
 		switch {
+		case ck == realCookie && s.nonce == realNonce:
+			c.Res.Count("positive_sessions_for_the_flow_start_began", 1)
+		case ck == realCookie:
+			viol("session-with-start-cookie-and-foreign-state/"+s.n, fmt.Sprintf("a session was created for the CSRF cookie /start set although the state carries the nonce %q, not the one /start generated", s.nonce))
 		case s.nonce == "" || ck != s.nonce:
 			viol("session-without-matching-nonce/"+s.n+"/cookie="+ck, fmt.Sprintf("a session was created although the state nonce (%q) does not equal the CSRF cookie (%q)", s.nonce, ck))
 		case !redeemed || email == "":
@@ -534,7 +562,7 @@ func init() {
 		Level: "exploration",
 		Rule: "(sign_in) correctly signed sign-in requests with authenticator cookie {absent, garbage, sealed under another key, genuine x lifetime {future, past} x token deadline {future, past} x refresh token {yes, no} x email {in domain, other domain, look-alike domain}} and the IdP's answers chosen on demand: introspect {active, inactive, 500, malformed}, refresh {200, 400 revoked, 500, malformed, 200 with a rotated refresh token}; " +
 			"(provider-acceptance) GoogleProvider, OktaProvider and AmazonCognitoProvider at their own API (URLs pointed at the scripted IdP): ValidateSessionState and RefreshSessionIfNeeded x status {200, 201, 204, 400, 401, 403, 404, 429, 500, 503} x body {affirmative, negative, empty, malformed} x connection reset; accepted => the answer was a 200 (and not Okta's {active:false}), and the lifetime deadline never moves; " +
-			"(sign_in-cognito) a valid Cognito-flavoured session (token deadline future/past) x userinfo answers {200, 401, 403, 404, 400, 429, 500, malformed} x refresh answers {200, 401, 403, 400, 500}; (callback) state {nonce_A / nonce_B with in-domain return, nonce_A with out-of-domain return, no colon, not base64, absent, empty nonce} x CSRF cookie {nonce_A, nonce_B, absent, odd} x code redemption {ok, rejected} x userinfo {verified in-domain, verified out-of-domain, unverified}; " +
+			"(sign_in-cognito) a valid Cognito-flavoured session (token deadline future/past) x userinfo answers {200, 401, 403, 404, 400, 429, 500, malformed} x refresh answers {200, 401, 403, 400, 500}; (callback) state {nonce_A / nonce_B with in-domain return, nonce_A with out-of-domain return, no colon, not base64, absent, empty nonce} x CSRF cookie {nonce_A, nonce_B, absent, odd, the cookie a real /start set — with that flow's own state and with every other state} x code redemption {ok, rejected} x userinfo {verified in-domain, verified out-of-domain, unverified}; " +
 			"(history) a real login followed by 4 (thorough 6) signed sign-ins separated by gaps {below token expiry, beyond it, far beyond it, beyond the lifetime} with introspect {active, inactive} and refresh {ok, revoked, 503, ok with a rotated refresh token} on demand, the real cookies carried along. " +
 			"Oracle: a string that opens under the authenticator's code cipher appears in a response (every base64url-looking token of every header and the body is tried) only in a redirect to the signed URI, only for an authentic cookie within its lifetime whose token the IdP accepted in this step (after a refresh if due) and whose email passes the rule, and carries that user's email; the callback creates a session only when the state nonce equals the CSRF cookie, the code redeemed for a verified in-rule email and the return address is in domain; the lifetime deadline of re-issued cookies never changes; " +
 			"distinct_nontrivial = distinct (cookie, IdP calls, status, codes) / (state, cookie, calls, status, session) / history signatures",
